@@ -141,6 +141,7 @@ func ListenRouterOnInterface(ifi *net.Interface, multicastAddress string, multic
 	pc := ipv4.NewPacketConn(conn)
 
 	if err := pc.JoinGroup(ifi, addr); err != nil {
+		conn.Close()
 		return nil, err
 	}
 
